@@ -57,6 +57,8 @@ PK = {
     'pL': b'\x06\xfd\x00\xfd' + bytes(range(253)),       # 3-byte length
     'pX': b'\x64\xfe\x00\x01\x00\x00' + b'\x77' * 65536,  # 5-byte length
     'pQ': bytes.fromhex('ff0000000000000007') + b'\x01\x09',  # 9-byte type, 1-byte length
+    'pM': b'\x06\xfc' + bytes(range(252)),               # the largest one-byte length (252)
+    'pm': b'\xfc\x01\x55',                               # the largest one-byte type (252)
 }
 
 
@@ -155,7 +157,8 @@ def framing_cases(tier):
     for n in (1, 2, 3):
         for s in itertools.product(small, repeat=n):
             seqs.append(s)
-    long_seqs = [('pL',), ('p1', 'pL'), ('pL', 'pT'), ('pL', 'pL'), ('p0', 'pL', 'p1')]
+    long_seqs = [('pL',), ('p1', 'pL'), ('pL', 'pT'), ('pL', 'pL'), ('p0', 'pL', 'p1'), ('pM',), ('pM', 'p1'), ('p1', 'pM', 'pL'),
+                 ('pm', 'p1'), ('p0', 'pm', 'pM')]
     if tier == 'thorough':
         long_seqs += [('pX',), ('p1', 'pX', 'pT')]
     maxcuts = 2 if tier == 'quick' else 3
